@@ -29,9 +29,10 @@ def subsets(u):
             yield list(c)
 
 
-def reset(store, via, names, expired=(), fresh=(), deep=False, base="/t"):
+def reset(store, via, names, expired=(), fresh=(), deep=False, base="/t", slash=False):
     return {"ev": "reset", "store": store, "via": via, "names": [B(n) for n in names],
-            "expired": [B(n) for n in expired], "fresh": [B(n) for n in fresh], "deep": deep, "base": base}
+            "expired": [B(n) for n in expired], "fresh": [B(n) for n in fresh], "deep": deep, "base": base,
+            "slash": slash}
 
 
 def req(ev, api, start, incl, limit, prefix, pattern="", excl="", mode=None):
@@ -105,7 +106,7 @@ def build_script(ctx, rng):
     cfgs = [("leveldb", "direct"), ("leveldb2", "direct"), ("leveldb3", "direct"),
             ("leveldb", "wrapper"), ("leveldb2", "wrapper"), ("leveldb3", "wrapper"), ("mem", "wrapper")]
     sreqs = store_requests(U6)
-    share = 1.0 if thorough else 0.05
+    share = 1.0 if thorough else 0.08
     for store, via in cfgs:
         # the wrapper over a store with native prefix listing only passes the call on: a quarter
         w = 0.25 if (via == "wrapper" and store != "mem") else 1.0
@@ -120,15 +121,15 @@ def build_script(ctx, rng):
                 execs.append(ex)
     # ---- the filer: patterns, exclusion, TTL expiry, hasMore
     freqs = filer_requests(U6, PATTERNS, EXCLS, 0.03, rng)
-    fshare = 1.0 if thorough else 0.04
-    fcfgs = [("mem", 1.0), ("leveldb", 1.0), ("leveldb2", 0.15), ("leveldb3", 0.15)]
+    fshare = 1.0 if thorough else 0.06
+    fcfgs = [("mem", 1.0), ("leveldb", 0.3), ("leveldb2", 0.05), ("leveldb3", 0.05)]
     for store, w in fcfgs:
         for names in allsets:
             # without expired names: long executions
             picked = [r for r in freqs if rng.random() < fshare * w]
             for ch in chunks(picked, 36):
                 ex = [reset(store, "filer", names, fresh=[n for n in names if rng.random() < 0.3],
-                            deep=rng.random() < 0.2)]
+                            deep=rng.random() < 0.2, slash=rng.random() < 0.25)]
                 for i, (st, inc, lim, pre, pat, exc) in enumerate(ch):
                     ex.append(req("list", "stream" if (i + len(names)) % 2 else "page", st, inc, lim, pre, pat, exc))
                 if names:
@@ -150,19 +151,21 @@ def build_script(ctx, rng):
                 execs.append(ex)
     # ---- deepening: 7-name universe (three names behind a foreign one share a prefix), more
     # pattern shapes; seeded random, every configuration
-    n_deep = 6000 if thorough else 250
+    n_deep = 3000 if thorough else 250
     pats = PATTERNS[1:] + PATTERNS_X
     excls = EXCLS + EXCLS_X
-    starts7 = U7 + ["", "aa", "0", "zz"]
+    starts7 = U7 + ["", "aa", "0", "zz", "B", "a-"]
     for i in range(n_deep):
-        names = [n for n in U7 if rng.random() < 0.7]
+        # a third of these directories also hold names whose byte order differs from "alphabetical"
+        pool = U7 + (["B", "a-", "a~", "_"] if i % 3 == 0 else [])
+        names = [n for n in pool if rng.random() < 0.6]
         if not names:
             continue
         store, via = rng.choice(cfgs + [("mem", "filer"), ("leveldb", "filer"), ("leveldb2", "filer"),
                                         ("leveldb3", "filer"), ("mem", "wrapper"), ("mem", "filer")])
         expired = [n for n in names if rng.random() < 0.25] if via == "filer" and rng.random() < 0.5 else []
         base = "/buckets/bk%d" % rng.randrange(2) if (store == "leveldb3" and rng.random() < 0.4) else "/t"
-        ex = [reset(store, via, names, expired, [], deep=rng.random() < 0.3, base=base)]
+        ex = [reset(store, via, names, expired, [], deep=rng.random() < 0.3, base=base, slash=rng.random() < 0.25)]
         for _ in range(3 if expired else 10):
             st, inc, lim = rng.choice(starts7), rng.random() < 0.4, rng.choice([0, 1, 1, 2, 2, 3, 4, 7])
             if via == "filer":
@@ -181,12 +184,23 @@ def build_script(ctx, rng):
     return execs
 
 
+def _expect_any(ctx, inst, bug):
+    """the S26 switch breaks both refinement invariants; whichever TLC reports first is fine"""
+    import vf
+    r = vf.run_tlc(inst[0], inst[1], os.path.join(ctx.out, "tlc"), workers=4, timeout=900)
+    ctx.mc_runs.append({"spec": "ListingImpl", "cfg": os.path.basename(inst[1]), "status": r.status,
+                        "generated": r.generated, "distinct": r.distinct, "wall_s": round(r.wall, 1),
+                        "label": "defect %s switched back on: TLC must find it" % bug})
+    if r.status != "violation" or r.violated not in ("ImplRefines", "StoreRefines"):
+        raise vf.Infra("layer B with %s: expected a refinement violation, got %s %s" % (bug, r.status, r.violated))
+
+
 def run(ctx):
     ctx.sany("Listing", "ListingTrace")
     T = lambda s: tuple(s.encode())
     # 1. the specification itself, at design level: List is the declarative reading of the
     #    statement; paginating by last name / by any admissible cursor is complete and duplicate free
-    uni = U6 if ctx.thorough else ["a", "ab", "b"]
+    uni = ["a", "ab", "abc", "b", "ba"] if ctx.thorough else ["a", "ab", "b"]
     mc = ctx.instance("MC_Listing", "Listing", "Listing_mc.cfg", {
         "Universe": {T(x) for x in uni},
         "Starts": {T(x) for x in uni + (["", "aa", "bb"] if ctx.thorough else ["", "aa"])},
@@ -195,7 +209,30 @@ def run(ctx):
         "PatternSet": {T(x) for x in (PATTERNS + ["?b*"] if ctx.thorough else ["", "a*", "?b"])},
         "ExclSet": {T(x) for x in EXCLS},
         "MaxOps": 0})
-    ctx.model_check(mc, workers=4, timeout=1500)
+    ctx.model_check(mc, workers=4, timeout=1500, coverage=False,
+                    label="layer A: List = the statement; pagination complete")
+    # 1b. layer B: the listing procedures of the code (leveldb scan, prefixFilterEntries, expired /
+    #     pattern refills, hasMore) refine layer A for every directory and request; in the thorough
+    #     tier each of the three repaired defects is switched back on and TLC has to re-find it
+    ctx.sany("ListingImpl")
+    uni_b = ["a", "ab", "b", "ba"] if ctx.thorough else ["a", "ab", "b"]
+
+    def impl(name, backend, bugs):
+        return ctx.instance(name, "ListingImpl", "ListingImpl_mc.cfg", {
+            "Universe": {T(x) for x in uni_b},
+            "Starts": {T(x) for x in uni_b + ["", "aa"]},
+            "Limits": set(range(0, 4 if ctx.thorough else 3)),
+            "PrefixSet": {T(x) for x in ["", "a", "b"]},
+            "PatternSet": {T(x) for x in (["", "a*", "?b", "*a"] if ctx.thorough else ["", "a*", "?b"])},
+            "ExclSet": {T(x) for x in EXCLS},
+            "MaxOps": 0, "Backend": backend, "Bugs": set(bugs)})
+    for backend in ("ldb", "pf"):
+        # (TLC's coverage statistics make these recursive definitions ~50 times slower: off)
+        ctx.model_check(impl("MCB_" + backend, backend, []), workers=4, timeout=1500, coverage=False,
+                        label="layer B refines layer A, backend " + backend)
+    if ctx.thorough:
+        for backend, bug in (("ldb", "S26"), ("pf", "S27"), ("ldb", "refill")):
+            _expect_any(ctx, impl("MCB_bug_" + bug, backend, [bug]), bug)
     # 2. inputs
     rng = random.Random(ctx.seed)
     script = os.path.join(ctx.out, "script.ndjson")
@@ -230,10 +267,11 @@ def run(ctx):
                 "(leveldb/leveldb2/leveldb3 direct, the same through FilerStoreWrapper, an in-memory store without "
                 "prefix listing through the wrapper, Filer over mem/leveldb/leveldb2/leveldb3) with up to 36 "
                 "listings from the full product start x inclusive x limit 0..4 x prefix x pattern x exclusion "
-                "(thorough: the whole product; quick: a seeded 4-5 % sample) plus pagination walks (by last "
+                "(thorough: the whole product on the three stores directly, on the wrapper over the in-memory store and on the "
+                "Filer over the in-memory store, 5-30 % samples of it on the other configurations; quick: a seeded 4-5 % sample) plus pagination walks (by last "
                 "delivered name, by returned cursor, by hasMore) recorded as one event each; short executions with "
-                "expired (TTL, back-dated) entries; seeded random executions over a 7-name universe with 16 pattern "
-                "shapes; non-trivial = at least one listing delivered an entry; distinct by hash of the execution")
+                "expired (TTL, back-dated) entries; seeded random executions over a 7-11-name universe (incl. names whose "
+                "byte order is not alphabetical) with 16 pattern shapes, sibling / nested directories, trailing slash; non-trivial = at least one listing delivered an entry; distinct by hash of the execution")
     ctx.exhaustive = ctx.thorough
     ctx.assumptions += [
         "names are ASCII without '/', so byte order, code-point order and filepath.Match characters coincide",
